@@ -68,6 +68,22 @@ def gen_schema(rng, nested, max_leaves=5):
         del elems[1:]
         count[0] = 0
         n = group(1)
+    if nested and rng.random() < 0.2:
+        # a deep chain: k optional (one of them perhaps repeated) single-child groups above an optional leaf, so that the maximum
+        # definition level is 7, 8, 9, 15, 16 or 17 - level widths change at the powers of two
+        total = rng.choice([7, 8, 8, 9, 15, 16, 16, 17])
+        reps = [1] * (total - 1)
+        if rng.random() < 0.4:
+            reps[rng.randrange(len(reps))] = 2
+        for d, rp in enumerate(reps):
+            elems.append({'name': 'd%d' % d, 'type': None, 'repetition': rp, 'num_children': 1})
+        t = rng.choice([P.INT32, P.INT64, P.BYTE_ARRAY, P.DOUBLE])
+        elems.append({'name': 'deep', 'type': t, 'type_length': 0, 'repetition': 1, 'num_children': 0})
+        n += 1
+    if rng.random() < 0.06:
+        # a leaf whose name is the empty string (pandas/pyarrow write one for an unnamed column)
+        lf = [e for e in elems[1:] if e['type'] is not None]
+        rng.choice(lf)['name'] = ''
     elems[0]['num_children'] = n
     return elems
 
@@ -143,6 +159,12 @@ def gen_file(rng, nested=False, features=None):
         cols = []
         for lf in leaves:
             defs, reps, starts = gen_levels(rng, elems, lf, nrec)
+            if feat.get('unsupported') == 'BIT_PACKED_LEVELS' and lf.max_def == 1 and lf.max_rep == 0 and nrec >= 40 and rng.random() < 0.7:
+                # make the packed bytes look like a plausible length prefix (small first byte, three zero bytes) to a reader that
+                # mistakes them for the RLE form: such a reader then returns rows instead of failing
+                b0 = rng.randrange(1, 12)
+                defs[0:8] = [(b0 >> (7 - i)) & 1 for i in range(8)]
+                defs[8:32] = [0] * 24
             nn = sum(1 for d in defs if d == lf.max_def)
             use_dict = feat.get('dict', rng.random() < 0.5) and lf.ptype != P.BOOLEAN
             dictionary = None
@@ -197,6 +219,8 @@ def gen_file(rng, nested=False, features=None):
                         pg['encoding'] = 'BSS'
                 if feat.get('unsupported') == 'v2':
                     pg['v2'] = True
+                if feat.get('unsupported') == 'BIT_PACKED_LEVELS':
+                    pg['bit_packed_levels'] = True
                 if rng.random() < 0.3 and lf.ptype in (P.INT32, P.INT64, P.FLOAT, P.DOUBLE) and pv:
                     pg['stats'] = (min(pv), max(pv), len(pd) - k)   # byte-wise min/max: content is not asserted by C06
                     pg['stats_mode'] = rng.choice(['new', 'deprecated', 'both'])
